@@ -150,7 +150,9 @@ def run_instance(inst):
     if inst[0] == 'ne_step_rel':
         from harness import nestep
         return nestep.run(inst)
-    return gabs.run(inst, claims_fn, witness_fn)
+    # continue_with_distance after a COMPLETE match raises IndexError in best_last_matches at either log level: totality of that
+    # call is outside C19 (as in C05 / C09); such paths are counted as exception_outside_claim
+    return gabs.run(inst, claims_fn, witness_fn, exc_is_violation=not any(o[0] == 'continue' for o in inst[3]))
 
 
 def main(tier):
